@@ -60,8 +60,8 @@ pub fn property() -> Property {
     scenarios: &[Scenario {
       id: 0,
       name: "encode -> real framing -> (alter) -> parse -> decode, three levels",
-      quick: 600,
-      thorough: 60_000,
+      quick: 4_000,
+      thorough: 400_000,
       max_len: 400,
       max_threads: 0,
     }],
